@@ -1,6 +1,6 @@
 //go:build conn_insecure
 
-package main
+package dw
 
 import (
 	"context"
@@ -20,7 +20,6 @@ import (
 	"github.com/drand/drand/v2/crypto"
 	"github.com/drand/drand/v2/internal/dkg"
 	dnetpkg "github.com/drand/drand/v2/internal/net"
-	"github.com/drand/drand/v2/internal/test"
 	"github.com/drand/drand/v2/internal/util"
 	pdkg "github.com/drand/drand/v2/protobuf/dkg"
 	pb "github.com/drand/drand/v2/protobuf/drand"
@@ -71,7 +70,7 @@ func (g *ghost) BroadcastDKG(context.Context, *pdkg.DKGPacket) (*pdkg.EmptyDKGRe
 }
 
 func newGhost(name string, sch *crypto.Scheme) (*ghost, error) {
-	addr := "127.0.0.1:" + test.FreePort()
+	addr := "127.0.0.1:" + bench.FreePort()
 	l, err := net.Listen("tcp", addr)
 	if err != nil {
 		return nil, err
@@ -87,7 +86,7 @@ func newGhost(name string, sch *crypto.Scheme) (*ghost, error) {
 	return g, nil
 }
 
-type world struct {
+type World struct {
 	*bench.Child
 	sch     *crypto.Scheme
 	g1, g2  *ghost
@@ -104,7 +103,7 @@ type world struct {
 	rm          func()
 }
 
-func (w *world) close() {
+func (w *World) Close() {
 	if w.Child != nil {
 		w.Child.Kill(false)
 	}
@@ -117,7 +116,7 @@ func mdFor(id string) *pb.Metadata {
 	return &pb.Metadata{BeaconID: id, NodeVersion: common.GetAppVersion().ToProto()}
 }
 
-func (w *world) sign(kp *key.Pair, id string, pkt *pdkg.GossipPacket, terms *pdkg.ProposalTerms, from *pdkg.Participant) (ok bool) {
+func (w *World) sign(kp *key.Pair, id string, pkt *pdkg.GossipPacket, terms *pdkg.ProposalTerms, from *pdkg.Participant) (ok bool) {
 	defer func() {
 		if recover() != nil {
 			ok = false // the pre-image routine itself does not cope with this shape: keep the packet unsigned
@@ -132,14 +131,14 @@ func (w *world) sign(kp *key.Pair, id string, pkt *pdkg.GossipPacket, terms *pdk
 }
 
 // firstTerms are the terms of a first DKG led by leader among the three participants.
-func (w *world) firstTerms(id string, leader *pdkg.Participant, parts []*pdkg.Participant) *pdkg.ProposalTerms {
+func (w *World) firstTerms(id string, leader *pdkg.Participant, parts []*pdkg.Participant) *pdkg.ProposalTerms {
 	now := t0 // the same terms in every world of this run: packets signed on one daemon are valid on the others
 	return &pdkg.ProposalTerms{BeaconID: id, Epoch: 1, Leader: leader, Threshold: 2, Timeout: timestamppb.New(now.Add(6 * time.Hour)),
 		CatchupPeriodSeconds: 1, BeaconPeriodSeconds: 3, SchemeID: w.sch.Name, GenesisTime: timestamppb.New(now.Add(12 * time.Hour).Truncate(time.Second)),
 		Joining: parts}
 }
 
-func (w *world) dkgStatus(id string) string {
+func (w *World) DKGStatus(id string) string {
 	ctx, cancel := context.WithTimeout(context.Background(), 20*time.Second)
 	defer cancel()
 	r, err := w.dkgCtl.DKGStatus(ctx, &pdkg.DKGStatusRequest{BeaconID: id})
@@ -158,10 +157,10 @@ func (w *world) dkgStatus(id string) string {
 var ghosts [2]*ghost
 var t0 = time.Now().Truncate(time.Second)
 
-// newWorld starts a daemon child process and brings its chains into the seven node states.
-func newWorld(logFile string, wrapper ...string) (*world, error) {
+// NewWorld starts a daemon child process and brings its chains into the seven node states.
+func NewWorld(logFile string, wrapper ...string) (*World, error) {
 	sch, _ := crypto.SchemeFromName(crypto.DefaultSchemeID)
-	w := &world{sch: sch, me: map[string]*pdkg.Participant{}, terms: map[string]*pdkg.ProposalTerms{}, status0: map[string]string{}, started: time.Now(),
+	w := &World{sch: sch, me: map[string]*pdkg.Participant{}, terms: map[string]*pdkg.ProposalTerms{}, status0: map[string]string{}, started: time.Now(),
 		lastHead: map[string]uint64{}, lastHeadAt: map[string]time.Time{}}
 	for i := range ghosts {
 		if ghosts[i] == nil {
@@ -187,21 +186,21 @@ func newWorld(logFile string, wrapper ...string) (*world, error) {
 	}
 	w.Child = ch
 	if w.dkgCtl, err = dnetpkg.NewDKGControlClient(fix.Logger(), sp.CtrlPort); err != nil {
-		w.close()
+		w.Close()
 		return nil, err
 	}
 	for _, id := range allChainIDs() {
 		p, err := util.PublicKeyAsParticipant(ch.Chains[id].Pair.Public)
 		if err != nil {
-			w.close()
+			w.Close()
 			return nil, err
 		}
 		w.me[id] = p
 	}
 	ctx, cancel := context.WithTimeout(context.Background(), 60*time.Second)
 	defer cancel()
-	fail := func(what string, err error) (*world, error) {
-		w.close()
+	fail := func(what string, err error) (*World, error) {
+		w.Close()
 		return nil, fmt.Errorf("world set-up: %s: %w", what, err)
 	}
 	// mid1, mid2: the daemon proposes a first DKG with the two ghosts
@@ -262,7 +261,7 @@ func newWorld(logFile string, wrapper ...string) (*world, error) {
 	}
 	time.Sleep(1200 * time.Millisecond) // kick-off grace period of mid2 (1 s): the board exists before, the protocol runs after
 	for _, id := range dkgChains {
-		w.status0[id] = w.dkgStatus(id)
+		w.status0[id] = w.DKGStatus(id)
 	}
 	want := map[string]string{"fresh1": "Fresh", "mid1": "Proposing", "mid2": "Executing", "mid3": "Joined", "grp3": "Complete", "grp3p": "Proposed", "grp3a": "Accepted"}
 	for id, st := range want {
@@ -275,8 +274,8 @@ func newWorld(logFile string, wrapper ...string) (*world, error) {
 	return w, nil
 }
 
-// reqType gives an empty request message of a method (replay).
-func reqType(method string) proto.Message {
+// ReqType gives an empty request message of a method (replay).
+func ReqType(method string) proto.Message {
 	switch method {
 	case "/drand.Public/PublicRand", "/drand.Public/PublicRandStream":
 		return &pb.PublicRandRequest{}
@@ -306,7 +305,7 @@ func reqType(method string) proto.Message {
 
 type request struct {
 	method string                       // full gRPC method
-	rebase func(w *world) proto.Message // rebuilds the base message at send time (requests that depend on the chain head)
+	rebase func(w *World) proto.Message // rebuilds the base message at send time (requests that depend on the chain head)
 	stream bool
 	target string // beacon id the base message addresses
 	state  string
@@ -341,7 +340,7 @@ func stateOf(id string) string {
 	return "unknown-id"
 }
 
-func (w *world) head(id string) uint64 {
+func (w *World) head(id string) uint64 {
 	ctx, cancel := context.WithTimeout(context.Background(), 10*time.Second)
 	defer cancel()
 	r, err := w.Public.PublicRand(ctx, &pb.PublicRandRequest{Metadata: mdFor(id)})
@@ -352,7 +351,7 @@ func (w *world) head(id string) uint64 {
 }
 
 // bundleFor builds validly signed protocol bundles of ghost 1 for the DKG of chain id.
-func (w *world) bundles(id string) []*pdkg.Packet {
+func (w *World) bundles(id string) []*pdkg.Packet {
 	t := w.terms[id]
 	sorted := util.SortedByPublicKey(append([]*pdkg.Participant{}, t.Joining...))
 	idx := uint32(0)
@@ -384,7 +383,7 @@ func (w *world) bundles(id string) []*pdkg.Packet {
 }
 
 // signBundle signs a protocol bundle with ghost 1's long-term key, the way kyber does (signature over the bundle hash).
-func (w *world) signBundle(p *pdkg.Packet) (ok bool) {
+func (w *World) signBundle(p *pdkg.Packet) (ok bool) {
 	defer func() {
 		if recover() != nil {
 			ok = false
@@ -414,7 +413,7 @@ func (w *world) signBundle(p *pdkg.Packet) (ok bool) {
 }
 
 // gossipBases are the control packets of the DKG for chain id, validly signed by the ghost entitled to send them.
-func (w *world) gossipBases(id string) []request {
+func (w *World) gossipBases(id string) []request {
 	var out []request
 	t := w.terms[id]
 	if t == nil {
@@ -472,7 +471,7 @@ func pick(id string, terms map[string]*pdkg.ProposalTerms) string {
 }
 
 // bases enumerates, for every endpoint a remote party can reach and every node state, a well-formed request.
-func (w *world) bases(targets []string) []request {
+func (w *World) bases(targets []string) []request {
 	var out []request
 	heads := map[string]uint64{}
 	for _, id := range []string{"default", "run2"} {
@@ -507,7 +506,7 @@ func (w *world) bases(targets []string) []request {
 		if c := w.Chains[id]; c != nil && len(c.Shares) > 1 {
 			// a valid partial of member 1 for the next round (rebuilt at send time: each one that is accepted completes a round)
 			id := id
-			mk := func(w *world) proto.Message {
+			mk := func(w *World) proto.Message {
 				c := w.Chains[id]
 				round, prev := uint64(1), c.Group.GenesisSeed
 				ctx, cancel := context.WithTimeout(context.Background(), 10*time.Second)
@@ -543,10 +542,13 @@ func (w *world) bases(targets []string) []request {
 	return out
 }
 
-func allIDs() []string {
+func AllIDs() []string {
 	ids := allChainIDs()
 	sort.Strings(ids)
 	return append(ids, "nope")
 }
 
 var _ = os.Getenv
+
+// DKGCtl is the DKG control client (operator side) of the daemon.
+func (w *World) DKGCtl() pdkg.DKGControlClient { return w.dkgCtl }
